@@ -382,6 +382,10 @@ def split_tuple_assignments(tree):
             if isinstance(s, ast.Assign) and len(s.targets) == 1 and isinstance(s.targets[0], (ast.Tuple, ast.List)) and isinstance(s.value, (ast.Tuple, ast.List)) \
                     and len(s.targets[0].elts) == len(s.value.elts) and not any(isinstance(x, ast.Starred) for x in list(s.targets[0].elts) + list(s.value.elts)):
                 ts, vs = s.targets[0].elts, s.value.elts
+                # components that assign a name to itself (`read, pairs = read, f(read)`, left behind by inlining) bind nothing
+                keep_ = [(t, v) for t, v in zip(ts, vs) if not (isinstance(v, ast.Name) and isinstance(t, ast.Name) and v.id == t.id)]
+                if len(keep_) < len(ts) and all(isinstance(t, ast.Name) for t in ts):
+                    ts, vs = [t for t, _ in keep_], [v for _, v in keep_]
                 # plain names, or attribute stores of constants (`r.is_read1, r.is_read2 = True, False`: no value can see an earlier store)
                 safe = all(isinstance(t, ast.Name) for t in ts) or \
                     (all(isinstance(t, (ast.Name, ast.Attribute)) for t in ts) and all(isinstance(v, ast.Constant) for v in vs))
